@@ -337,7 +337,7 @@ pub(crate) fn gen_gi_resp(rng: &mut Rng) -> (get_info::Response, Vec<u8>) {
     };
     let mms = if rng.chance(1, 3) {
         keys.push(5);
-        std::num::NonZeroU128::new(*rng.pick(&[1u128, 1200, 7609, 65_535, 4_000_000_000]))
+        std::num::NonZeroU128::new(*rng.pick(&[1u128, 1200, 7609, 65_535, 4_000_000_000, u64::MAX as u128, u64::MAX as u128 + 1, 1u128 << 100, u128::MAX]))
     } else {
         None
     };
@@ -481,6 +481,44 @@ fn check_message<T: Serialize + DeserializeOwned>(cx: &mut Ctx, ty: &'static str
         try_injected(rep, Cbor::Integer(k.into()), pos, &k.to_string(), rng);
         let t = *rng.pick(&["zzUnknown", "", "x-y", "RpId ", "client_data_hash"]);
         try_injected(rep, Cbor::Text(t.into()), pos, &format!("\"{t}\""), rng);
+    }
+    // several unknown keys at once (a message from a newer protocol version carries more than one)
+    {
+        rep.eval();
+        let mut e = entries.clone();
+        let n = rng.range(2, 5);
+        let mut labels = Vec::new();
+        let mut used: Vec<u8> = Vec::new();
+        for j in 0..n {
+            let pos = rng.below(e.len() + 1);
+            if j % 2 == 0 {
+                let mut k = unknown_ints[rng.below(unknown_ints.len())];
+                while used.contains(&k) {
+                    k = unknown_ints[rng.below(unknown_ints.len())];
+                }
+                used.push(k);
+                labels.push(k.to_string());
+                e.insert(pos, (Cbor::Integer(k.into()), junk(rng)));
+            } else {
+                let t = format!("future-{j}");
+                labels.push(format!("\"{t}\""));
+                e.insert(pos, (Cbor::Text(t), junk(rng)));
+            }
+        }
+        let b = oracle::cbor_ser(&Cbor::Map(e));
+        let mut c = case.clone();
+        c["injected"] = json!({"several_unknown_keys": labels});
+        match catch(|| de::<T>(&b)) {
+            Err((sig, d)) => rep.violate(&format!("{ty}: deserialisation with several unknown keys {sig}"), d, c),
+            Ok(Err(e)) => rep.violate(&format!("{ty}: several unknown keys in one map are not ignored (deserialisation fails)"), e, c),
+            Ok(Ok(back)) => {
+                let again = ser(&back).ok().and_then(|b| oracle::cbor_parse(&b).ok()).map(|v| canon(&v));
+                if again.as_ref() != Some(&canon0) {
+                    rep.violate(&format!("{ty}: unknown keys change the deserialised message"), String::new(), c);
+                }
+                rep.count("several_unknown_keys_ignored");
+            }
+        }
     }
     // (e) duplicated member -> error; missing required member -> error
     for i in 0..entries.len() {
